@@ -49,6 +49,35 @@ theorem load_writable (nd0 : Bool) (l : List Svc) : ∀ e ∈ (load nd0 l).writa
     (by intro e he; cases he)
   simpa [load] using this
 
+theorem loadStep_core (r r' : Roots) (s : Svc) (h : r.core = r'.core) :
+    (loadStep r s).core = (loadStep r' s).core := by
+  simp only [Roots.core, Prod.mk.injEq] at h
+  obtain ⟨h1, h2, h3, h4, h5⟩ := h
+  unfold loadStep
+  rw [h1]
+  split
+  · simp [Roots.core, h1, h2, h3, h4, h5]
+  · simp [Roots.core, h2, h3, h4, h5]
+
+theorem foldl_core (l : List Svc) (r r' : Roots) (h : r.core = r'.core) :
+    (l.foldl loadStep r).core = (l.foldl loadStep r').core := by
+  induction l generalizing r r' with
+  | nil => exact h
+  | cons s t ih => exact ih _ _ (loadStep_core r r' s h)
+
+/-- the maps and `replicasPerService` after a load do not depend on what the client held before -/
+theorem load_core (a b : Bool) (l : List Svc) : (load a l).core = (load b l).core :=
+  foldl_core l _ _ rfl
+
+theorem reload_last (nd0 : Bool) (ls : List (List Svc)) (l : List Svc) :
+    (reload nd0 (ls ++ [l])).core = (load false l).core := by
+  induction ls generalizing nd0 with
+  | nil => exact load_core _ _ l
+  | cons a t ih =>
+    cases t with
+    | nil => simp only [List.cons_append, List.nil_append, reload]; exact load_core _ _ l
+    | cons b u => simp only [List.cons_append, reload]; exact ih _
+
 /-- the retry condition in closed form -/
 theorem retryable_iff (code : Nat) :
     retryable code = true ↔ code = 0 ∨ code = 408 ∨ code = 429 ∨ (500 ≤ code ∧ code ≠ 503) := by
